@@ -261,6 +261,10 @@ def run(ctx):
         for nth in range(len(S)):
             for ans in ("exit:1", "exit:255", "signal:9", "signal:15"):  # "succeeded" = exit code 0, not "no non-zero code"
                 reqs.append(make_req(S, script=[{"kind": "hook", "tag_prefix": "chal-", "nth_hook": nth, "answer": ans}], tag="hook-exit"))
+    # a name configured with upper-case letters next to its (lower-case) wildcard with another challenge type: the CA answers in lower case
+    for S3 in ([("WWW.B.Example", "http-01"), ("*.www.b.example", "dns-01")], [("*.www.b.example", "dns-01"), ("WWW.B.Example", "http-01")],
+               [("B.Example", "tls-alpn-01"), ("*.B.example", "http-01")]):
+        reqs.append(make_req(S3, tag="letter-case"))
     # a CA that lists several challenges of one type per authorization (different tokens)
     for S in (S1, S2):
         for dup in (["http-01", "http-01", "dns-01", "dns-01", "tls-alpn-01", "tls-alpn-01"], ["dns-01", "http-01", "tls-alpn-01", "http-01", "tls-alpn-01", "dns-01"]):
